@@ -1296,6 +1296,86 @@ def nullleak(run, fx):
         run.held('OWNFIELD', inst, '', '%d stores of fresh allocations into fields; none is nulled on a path that has not released it' % n)
 
 
+def opscopy_exec(run, fx):
+    """TABLETS: a table is handed back through the `release_table` the application supplied.  Face::Face keeps a copy of the caller's
+    gr_face_ops, whose first member is the size of the CALLER's layout (an older client passes a shorter structure, a newer one a
+    longer one).  The constructor is interpreted (rules/ordint.py; memset / memcpy as prefix operations over the members in declaration
+    order, 8 bytes each) for caller sizes of 8, 16, 24, 32 and 48 bytes: afterwards get_table is the caller's whenever the caller's
+    structure reaches it, release_table likewise -- a longer structure included -- and a member the caller's structure does not reach
+    is null."""
+    from . import ordint as O
+    PF, PO = 'graphite2::Face::', 'gr_face_ops::'
+    ctors = [f for f in fx.fns_named('graphite2::Face::Face') if not f.f.get('implicit') and len(f.f.get('params') or []) == 2]
+    inst = 'Face::Face keeps the caller\'s release_table whatever the caller\'s structure size (interpreted)'
+    if len(ctors) != 1:
+        run.broken('TABLETS', inst, 'Face::Face(appFaceHandle, ops) not found')
+        return
+    fn = ctors[0]
+    frec = fx.record('graphite2::Face')
+    orec = fx.raw['records'].get('gr_face_ops')
+    if orec is None or [f['n'] for f in orec['fields']] != ['size', 'get_table', 'release_table']:
+        run.broken('TABLETS', inst, 'gr_face_ops is not {size, get_table, release_table} any more: re-derive the prefix-copy model', fn.where())
+        return
+    names = [orec['q'] + '::' + f['n'] for f in orec['fields']]
+    cases = 0
+    try:
+        for size in (8, 16, 24, 32, 48):
+            face = O.Rec()
+            for f in frec['fields']:
+                face[PF + f['n']] = None
+            mine = O.Rec({n: 'garbage' for n in names})
+            face[PF + 'm_ops'] = mine
+            GET, REL = O.Rec({'#fn': 'get'}), O.Rec({'#fn': 'rel'})
+            ops = O.Rec({names[0]: size, names[1]: O.Ptr(GET), names[2]: O.Ptr(REL)})
+
+            def rec_of(x):
+                if isinstance(x, O.PtrLV):
+                    return x.lv.load()
+                if isinstance(x, O.LV):
+                    return x.load()
+                return x.rec if isinstance(x, O.Ptr) else x
+
+            def memset_(I, f, e, obj, a):
+                d, v, n = I.rv(a[0]), I.rv(a[1]), I.rv(a[2])
+                if not (rec_of(d) is face[PF + 'm_ops'] and v == 0 and isinstance(n, int)):
+                    raise AnalysisBroken('memset of something other than m_ops: %r %r %r' % (d, v, n))
+                for k, nm in enumerate(names):
+                    if 8 * (k + 1) <= n:
+                        face[PF + 'm_ops'][nm] = 0 if k == 0 else O.Ptr(None)
+                return d
+
+            def memcpy_(I, f, e, obj, a):
+                d, s_, n = I.rv(a[0]), I.rv(a[1]), I.rv(a[2])
+                if not (rec_of(d) is face[PF + 'm_ops'] and rec_of(s_) is ops and isinstance(n, int)):
+                    raise AnalysisBroken('memcpy of something other than m_ops <- ops')
+                if n > 24:
+                    raise O.Violation('%d bytes are copied into the 24-byte m_ops' % n, f.loc(e))
+                for k, nm in enumerate(names):
+                    if 8 * (k + 1) <= n:
+                        face[PF + 'm_ops'][nm] = ops[nm]
+                return d
+            it = O.Interp(fx, natives={'memset': memset_, 'memcpy': memcpy_})
+            it.MAX_STEPS = 3000
+            cases += 1
+            it.call(fn, face, [O.Ptr(O.Rec({'#handle': 1})), O.LV([ops], 0)])
+            for k, nm in ((1, 'get_table'), (2, 'release_table')):
+                got = face[PF + 'm_ops'].get(names[k], 'garbage')
+                want = (GET, REL)[k - 1] if size >= 8 * (k + 1) else None
+                g_ = got.rec if isinstance(got, O.Ptr) else got
+                if g_ is not want:
+                    run.violated('TABLETS', inst, fn.where(), 'a caller whose gr_face_ops is %d bytes long (size member): afterwards Face::m_ops.%s is %s, expected %s -- %s' %
+                                 (size, nm, 'null' if g_ is None else 'the caller\'s' if g_ in (GET, REL) else repr(g_), 'the caller\'s' if want is not None else 'null',
+                                  'every table the face borrows is never handed back to the application' if nm == 'release_table' else 'the face cannot load a table'))
+                    return
+    except O.Violation as v:
+        run.violated('TABLETS', inst, fn.where(), '%s (%s)' % (v.what, v.loc))
+        return
+    except AnalysisBroken as ex:
+        run.broken('TABLETS', inst, str(ex), fn.where())
+        return
+    run.held('TABLETS', inst, fn.where(), '%d caller layouts' % cases)
+
+
 def run(run):
     E = ER.setup(run)
     fx = E.fx
@@ -1309,6 +1389,7 @@ def run(run):
     guarded('TABLETS', lambda: opsflow(run, fx))
     guarded('WIT', lambda: wit(run))
     guarded('TABLETS', lambda: tablets(run, fx))
+    guarded('TABLETS', lambda: opscopy_exec(run, fx))
     entries = [e for e in ER.api_entries(E.ir) if e not in ER.ENTRY_LOAD]
     cuts, lazyfn = ER.lazy_cuts(run, E, 'NOCALLBACK')
     reach = E.reachable(entries, cuts)
